@@ -242,8 +242,16 @@ def check_case(case):
                 scd["time_step"] = "%r %s" % (DT * f_t, ts)
                 scd["t_max"] = "%r %s" % ((NSTEPS - 0.5) * DT * f_t, ts)
                 scd["units"] = uq.sysdict(rot(U))
+            if case.get("variant") == "explicit-tsample":
+                # the request list is an explicit quantity array in U's time unit; t_max is left to its default (the last
+                # request); the script's own units system is another one
+                ts = si.units_string(U, DIM["time"])
+                scd["time_step"] = "%r %s" % (DT * f_t, ts)
+                scd["t_sample"] = {"value": [0.0, (NSTEPS - 0.5) * DT * f_t], "units": ts}
+                del scd["t_max"]
+                scd["units"] = uq.sysdict(rot(U))
             t, d, meta = euler_run(None, U, script_dict=scd)
-            expU = rot(U) if case.get("variant") == "explicit-times" else U
+            expU = rot(U) if case.get("variant") in ("explicit-times", "explicit-tsample") else U
             if meta[0][1] != expU[1] or meta[1][2] != expU[2]:
                 out.append(("C04:script:output-units", "trajectory reported in %r / %r, script units system is %r" % (meta[0], meta[1], expU)))
         else:
@@ -288,9 +296,10 @@ def gen_cases(tier):
                     c3["rate"] = False
                     yield c3
                 if level == "script":
-                    c2 = dict(c)
-                    c2["variant"] = "explicit-times"
-                    yield c2
+                    for var in ("explicit-times", "explicit-tsample"):
+                        c2 = dict(c)
+                        c2["variant"] = var
+                        yield c2
 
 
 _CASES = None
@@ -329,7 +338,7 @@ def run(ctx):
         core.merge(ctx, r)
         done += job[1] - job[0]
     nsys = 36 if ctx.tier == "quick" else 1100
-    ctx.subspace("%d unit systems x {grid: 7 levels, graph: 9 levels} (+ explicit-time-quantity script variant): heterogeneous "
+    ctx.subspace("%d unit systems x {grid: 7 levels, graph: 9 levels} (+ script variants with explicit time quantities / explicit request list and default t_max): heterogeneous "
                  "3-species / 4-reaction (orders 0-3) / 2-environment system on a periodic 3-cell grid and a 3-node graph" % nsys,
                  len(_CASES), done, exhaustive=(done == len(_CASES)))
     ctx.rule("one case per (space type, declaration level, unit system); non-trivial = unit system differs from the default; "
